@@ -35,6 +35,11 @@ def call(eng, st, f, args, kwargs):
     if getattr(f, "__module__", None) == "logging" and getattr(f, "__name__", None) == "getLogger":
         from pyvc.symex import LoggerVal
         return LoggerVal()
+    if f in (max, min) and len(args) == 2 and all(isinstance(a, (int, SInt, SBits)) for a in args) and not kwargs:
+        if all(isinstance(a, int) for a in args):
+            return f(*args)
+        ta, tb = int_term(args[0]), int_term(args[1])
+        return SInt(z3.If(ta >= tb, ta, tb) if f is max else z3.If(ta <= tb, ta, tb))
     if f is bool:
         t = ops.truth(st, args[0]) if args else False
         return t if isinstance(t, bool) else norm(SBool(t))
@@ -260,7 +265,7 @@ def method(eng, st, recv, name, args, kwargs):
     if isinstance(recv, _BinStr) and name == "count" and args == ["1"]:
         v = recv.v
         if isinstance(v, SSlice):
-            from pyvc.specfun import popcount_slice
+            from spec.msm import popcount_slice
             return SInt(popcount_slice(st, v))
         bits = to_bits(st, v)
         return norm(SInt(z3.Sum([z3.If(b, 1, 0) if not isinstance(b, bool) else z3.IntVal(int(b)) for b in bits]) if bits else z3.IntVal(0)))
@@ -374,6 +379,8 @@ def get_item(eng, st, o, i):
     o, i = norm(o), norm(i)
     if o is UNDEF:
         raise EngineUnsupported("index of a havocked local")
+    if o is None:
+        return Cases([(True, RaiseExc(TypeError, "'NoneType' object is not subscriptable"))])
     if isinstance(o, Ref):
         obj = st.obj(o)
         if isinstance(obj, HList):
